@@ -17,6 +17,7 @@ import (
 	"go.sia.tech/core/consensus"
 	proto4 "go.sia.tech/core/rhp/v4"
 	"go.sia.tech/core/types"
+	"go.sia.tech/coreutils"
 	"go.sia.tech/coreutils/chain"
 	rhp4 "go.sia.tech/coreutils/rhp/v4"
 	"go.sia.tech/coreutils/testutil"
@@ -73,6 +74,7 @@ func nonZeroPrefix(sector int) uint64 {
 type env struct {
 	tb         testing.TB
 	syncWallet func()
+	lifeCases  int
 	life       *env // a second, independent host/chain for the contract lifecycle RPCs (lazily built)
 	cm         *chain.Manager
 	w          *wallet.SingleAddressWallet
@@ -126,7 +128,11 @@ func waitFor(tb testing.TB, what string, cond func() bool) {
 	}
 }
 
-func newEnv(tb testing.TB) *env {
+func newEnv(tb testing.TB) *env { return newEnvWith(tb, true) }
+
+// newEnvWith builds a host/chain/contract; withSectors=false skips the ground-truth sectors (the
+// contract lifecycle environment does not read or write sector data).
+func newEnvWith(tb testing.TB, withSectors bool) *env {
 	e := &env{tb: tb}
 	n, genesis := testutil.V2Network()
 	e.hostKey, e.renterKey = seedKey("host"), seedKey("renter")
@@ -217,7 +223,7 @@ func newEnv(tb testing.TB) *env {
 	// ground-truth sectors, stored on the host directly through the Sectors interface
 	// sectors numSectors.. are ZERO-TAILED: random bytes up to zeroTail[i], zeros from there on -- what
 	// a host stores for any RPCWriteSector upload shorter than a sector
-	for i := 0; i < numSectors+len(zeroTail); i++ {
+	for i := 0; withSectors && i < numSectors+len(zeroTail); i++ {
 		var sector [proto4.SectorSize]byte
 		n := proto4.SectorSize
 		if i >= numSectors {
@@ -321,16 +327,27 @@ func (e *env) freshAccounts(n int) []proto4.Account {
 
 // mine mines n blocks paying the wallet and brings wallet and contractor up to the new tip.
 func (e *env) mine(n int) {
-	testutil.MineBlocks(e.tb, e.cm, e.w.Address(), n)
+	for ; n > 0; n-- {
+		b, ok := coreutils.MineBlock(e.cm, e.w.Address(), 30*time.Second)
+		if !ok {
+			e.tb.Fatal("failed to mine a block")
+		} else if err := e.cm.AddBlocks([]types.Block{b}); err != nil {
+			e.tb.Fatal(err)
+		}
+	}
 	e.syncWallet()
 	waitFor(e.tb, "contractor tip", func() bool { t, _ := e.ec.Tip(); return t == e.cm.Tip() })
 }
 
 // lifeEnv returns the environment of the contract lifecycle RPCs (form, renew, refresh): they mine a
 // block or two per case, which must not age the contract the other RPCs work on.
+// The difficulty adjusts upwards while blocks are mined within milliseconds of each other, so the
+// environment is replaced after a few hundred cases.
 func (e *env) lifeEnv() *env {
-	if e.life == nil {
-		e.life = newEnv(e.tb)
+	if e.life == nil || e.lifeCases >= 250 {
+		e.life = newEnvWith(e.tb, false)
+		e.lifeCases = 0
 	}
+	e.lifeCases++
 	return e.life
 }
